@@ -187,29 +187,57 @@ def _programs_from_tlc(out):
     return progs
 
 
+def _mc(ctx, module, cfg, **kw):
+    """exhaustive TLC run that must pass (like vlib.tlc_mc, but thread friendly: statistics are added by the caller)"""
+    r = vlib.tlc(ctx, module, cfg, **kw)
+    if r['invariant_violations'] or r['errors'] or not r['completed']:
+        raise vlib.Infra('design-level model checking of %s/%s did not pass:\n%s' % (module, cfg, r['out'][-3000:]))
+    return r
+
+
 def model_check(ctx):
-    """(MC) design level: rewrite laws for all operand instantiations and environments (JsLaws), generator automaton with
-    its invariants (JsGen); the complete programs TLC prints are the generated inputs."""
+    """(MC) design level: rewrite laws for all operand instantiations and environments (JsLaws), generator automata with
+    their invariants (JsGen, NumGen); the complete programs TLC prints are the generated inputs.  The TLC runs are
+    independent and run side by side."""
+    from concurrent.futures import ThreadPoolExecutor
     quick = ctx.quick()
-    info = {'evidence': {}}
-    r = vlib.tlc_mc(ctx, 'JsLaws', 'JsLaws_quick.cfg' if quick else 'JsLaws_thorough.cfg', workers=min(8, vlib.JOBS), heap='3g',
-                    timeout=3000)
-    if 'LAW FAILS' in r['out']:
-        raise vlib.Infra('a rewrite law fails in the design model:\n' + '\n'.join(l for l in r['out'].splitlines() if 'LAW FAILS' in l)[:2000])
-    info['evidence']['laws_instantiations_checked'] = r['distinct']
+    info = {'evidence': {}, 'mc_results': []}
+    vlib._speccopy(ctx)
+    w = max(2, min(6, vlib.JOBS // 2))
+    gencfgs = ['JsGen_flow_quick.cfg', 'JsGen_expr_quick.cfg'] if quick else ['JsGen_flow.cfg', 'JsGen_expr.cfg', 'JsGen_nullish.cfg']
+    nsim = 40 if quick else 1500          # (every walk checks ~20 complete successor programs)
+
+    def laws():
+        return _mc(ctx, 'JsLaws', 'JsLaws_quick.cfg' if quick else 'JsLaws_thorough.cfg', workers=w, heap='3g', timeout=3000)
+
+    def gens():
+        return [_mc(ctx, 'JsGen', cfg, workers=max(2, w // 2), heap='4g', timeout=3000) for cfg in gencfgs]
+
+    def sim():
+        return vlib.tlc(ctx, 'JsGenSim', 'JsGenSim.cfg', workers=1, simulate='num=%d' % nsim, depth=60, seed=ctx.seed, timeout=1200)
+
+    def numgen():
+        return numgen_lexemes(ctx)
+
+    with ThreadPoolExecutor(max_workers=4) as ex:
+        fl, fg, fs, fn = ex.submit(laws), ex.submit(gens), ex.submit(sim), ex.submit(numgen)
+        rl, rg, rs, rn = fl.result(), fg.result(), fs.result(), fn.result()
+    if 'LAW FAILS' in rl['out']:
+        raise vlib.Infra('a rewrite law fails in the design model:\n' + '\n'.join(l for l in rl['out'].splitlines() if 'LAW FAILS' in l)[:2000])
+    info['evidence']['laws_instantiations_checked'] = rl['distinct']
+    info['mc_results'].append(rl)
     progs = []
-    for cfg in (['JsGen_flow_quick.cfg', 'JsGen_expr_quick.cfg'] if quick else ['JsGen_flow.cfg', 'JsGen_expr.cfg', 'JsGen_nullish.cfg']):
-        r = vlib.tlc_mc(ctx, 'JsGen', cfg, workers=min(8, vlib.JOBS), heap='4g', timeout=3000)
+    for cfg, r in zip(gencfgs, rg):
         ps = _programs_from_tlc(r['out'])
         info['evidence'][cfg] = dict(states=r['distinct'], programs=len(ps))
+        info['mc_results'].append(r)
         progs += ps
-    # random walks far beyond the exhaustive bounds (TLC -simulate on the same automaton, all productions enabled)
-    nsim = 1500 if quick else 40000
-    rs = vlib.tlc(ctx, 'JsGen', 'JsGen_sim.cfg', workers=1, simulate='num=%d' % nsim, depth=60, seed=ctx.seed, timeout=1200)
-    if rs['errors'] and not any('PROG' in l for l in rs['out'].splitlines()):
-        raise vlib.Infra('JsGen simulate failed: ' + rs['out'][-1500:])
     sims = _programs_from_tlc(rs['out'])
+    if not sims:
+        raise vlib.Infra('JsGen simulate produced no programs: ' + rs['out'][-1500:])
     info['evidence']['simulated_programs'] = len(sims)
+    info['mc_results'].append(rn['mc'])
+    ctx.numgen_lexemes = rn['lexemes']
     info['exhaustive'] = progs
     info['simulated'] = sims
     return info
@@ -220,9 +248,16 @@ def fragment_programs(ctx, specinfo):
     seen = set()
     out = []
     ex = specinfo.get('exhaustive', [])
+    sims = sorted(specinfo.get('simulated', []))
     if quick:
-        ex = vlib.sample(ex, 1200, ctx.rnd)
-    for sym in ex + specinfo.get('simulated', []):
+        ex = vlib.sample(ex, 350, ctx.rnd)
+        sims = vlib.sample(sims, 250, ctx.rnd)
+    else:
+        ex = vlib.sample(ex, 16000, ctx.rnd)
+        sims = vlib.sample(sims, 12000, ctx.rnd)
+    if os.environ.get('C01_FRAG_N'):
+        ex, sims = ex[: int(os.environ['C01_FRAG_N'])], sims[: int(os.environ['C01_FRAG_N'])]
+    for sym in ex + sims:
         try:
             src = render(sym)
         except (ValueError, IndexError):
@@ -271,64 +306,42 @@ def _tlc_ast(ctx, lines, tag):
     return stats, sorted(set(rejects))
 
 
-def run_fragment(ctx, exe, frag, run_sources, stats):
-    """spec recorder + engine recorder over the TLC-generated fragment programs"""
-    res = dict(evaluations=0, rejected=0, nontrivial=set(), samples=[], violations=[], spec_accepted=0)
-    srcs = [s for s in frag if not excluded(s)]
-    stats['excluded_known_construct'] = stats.get('excluded_known_construct', 0) + (len(frag) - len(srcs))
-    if not srcs:
-        return res
-    fst = {}
-    pairs, lines, rej, astlines = run_sources(ctx, exe, srcs, 'fragment', nenv=3, probe=1, ast=True, stats=fst)
-    for k, v in fst.items():
-        stats[k] = stats.get(k, 0) + v
-    res['evaluations'] += len(lines)
-    observed = set(l['id'] for l in lines)
-    for p in pairs:
-        if p['id'] in observed and p['out'] != p['in']:
-            res['nontrivial'].add((p['in'], p['out']))
-    for p in pairs[:: max(1, len(pairs) // 3)][:3]:
-        res['samples'].append({'family': 'fragment', 'in': p['in'][:200], 'out': p['out'][:200], 'cfgs': p['cfgs'][:3]})
+def validate_asts(ctx, pairs, astlines, stats):
+    """spec recorder: C01Ast over the AST lines of the fragment programs (input AST, output AST, V8 cross-check records)"""
+    res = dict(evaluations=0, violations=[], spec_accepted=0)
     byid = dict((p['id'], p) for p in pairs)
-    L = dict(((l['id'], l['env']), l) for l in lines)
-    seenv = set()
-    for pid, env, why in rej:
-        if pid in seenv:
-            continue
-        seenv.add(pid)
-        p = byid[pid]
-        res['violations'].append((p['in'], p['cfgs'][0], 'engine: ' + why, first_difference_text(L[(pid, env)]), p['out']))
-    # ---- spec recorder
     inlines = [a for a in astlines if a.get('frag')]
-    stats['fragment_pairs_outside_the_tla_fragment'] = stats.get('fragment_pairs_outside_the_tla_fragment', 0) + \
-        sum(1 for a in astlines if not a.get('frag'))
+    stats['fragment_pairs_outside_the_tla_fragment'] = sum(1 for a in astlines if not a.get('frag'))
+    why = {}
+    for a in astlines:
+        if not a.get('frag'):
+            why[a.get('why', '?')[:60]] = why.get(a.get('why', '?')[:60], 0) + 1
+    stats['outside_fragment_reasons'] = why
     tl = [dict(id=a['id'], free=a['free'], vary=a['vary'], inp=a['inp'], outp=a['outp'], v8=a['v8']) for a in inlines]
     st, rejects = _tlc_ast(ctx, tl, 'main')
-    stats['spec_env_runs_ok'] = stats.get('spec_env_runs_ok', 0) + st['ok']
-    stats['spec_env_runs_outside_model_input'] = stats.get('spec_env_runs_outside_model_input', 0) + st['skip_in']
-    stats['spec_env_runs_outside_model_output'] = stats.get('spec_env_runs_outside_model_output', 0) + st['skip_out']
-    stats['spec_v8_crosschecks'] = stats.get('spec_v8_crosschecks', 0) + sum(len(a['v8']) for a in inlines)
-    res['evaluations'] += st['ok'] + st['bad']
+    stats['spec_env_runs_ok'] = st['ok']
+    stats['spec_env_runs_outside_model_input'] = st['skip_in']
+    stats['spec_env_runs_outside_model_output'] = st['skip_out']
+    stats['spec_v8_crosschecks'] = sum(len(a['v8']) for a in inlines)
+    res['evaluations'] = st['ok'] + st['bad']
     bugs = [(i, w) for i, w, _ in rejects if w == 'SPECBUG']
     if bugs:
-        a = inlines[bugs[0][0]]
-        raise vlib.Infra('TLA+ semantics (JsCore.Run) disagrees with V8 on fragment program(s), e.g. %r -> %r  (%d lines): specification '
-                         'bug, not a verdict' % (byid[a['id']]['in'], byid[a['id']]['out'], len(bugs)))
+        ex = '; '.join('%r -> %r' % (byid[inlines[i]['id']]['in'], byid[inlines[i]['id']]['out']) for i, _ in bugs[:12])
+        raise vlib.Infra('TLA+ semantics (JsCore.Run) disagrees with V8 on %d fragment program(s): specification bug, not a verdict: %s'
+                         % (len(bugs), ex))
     badlines = set()
+    seen = set()
     for i, w, wit in rejects:
         a = inlines[i]
         badlines.add(i)
-        if a['id'] in seenv:
-            continue
-        seenv.add(a['id'])
         p = byid[a['id']]
+        if p['in'] in seen:
+            continue
+        seen.add(p['in'])
         res['violations'].append((p['in'], p['cfgs'][0], 'TLA+ semantics: ' + w, 'environment %s over %s' % (wit, a['vary']), p['out']))
     res['spec_accepted'] = len(inlines) - len(badlines)
-    res['rejected'] = len(seenv)
-    stats['fragment'] = dict(programs=len(srcs), pairs=len(pairs), engine_observations=len(lines), ast_lines=len(inlines),
-                             rejected_pairs=len(seenv))
-    vlib.log('fragment: programs=%d pairs=%d engine obs=%d ast lines=%d (spec env runs ok=%d skipped=%d/%d) rejected=%d' % (
-        len(srcs), len(pairs), len(lines), len(inlines), st['ok'], st['skip_in'], st['skip_out'], len(seenv)))
+    stats['spec_ast_lines'] = len(inlines)
+    stats['spec_ast_lines_rejected'] = len(badlines)
     return res
 
 
@@ -419,9 +432,10 @@ _ex(r'function\b[^(]*\([^)]*\b(undefined|NaN|Infinity)\b[^)]*\)\s*\{|\b(var|let|
     r'\(([^()]*)\b(undefined|NaN|Infinity)\b[^()]*\)\s*=>|\b(undefined|NaN|Infinity)\s*=>',
     'K16 local bindings named undefined/NaN/Infinity (treated as the global constants)')
 _ex(r'\bvoid\s*\(?\s*(class\b|[\w.$]+\s*([-+*/%<>&|^]|instanceof\b|in\b|[!=]=)|[-+~!]|typeof\b|[\[{`])|'
-    r'\bif\s*\(\s*[^;{}()]*[-+*/%<>&|^!~=][^;{}()]*\)\s*(;|\{\s*\})\s*(?!else)|\{\s*(let|const)\s+\w+\s*=\s*[^;{}]*[-+*/%<>&|^!~][^;{}]*;?\s*\}',
-    'K17 operator/class/literal expressions in discarded position (void X, if(X);, {let x=X}) - dropped although they can call '
-    'valueOf/throw/run static initialisers')
+    r'\bif\s*\([^;{}]*[-+*/%<>&|^!~=][^;{}]*\)\s*(;|\{\s*;?\s*\}|\{\s*(let|const)\s[^{};]*;?\s*;?\s*\})\s*(?!\s*else)|'
+    r'\{\s*(let|const)\s+\w+\s*=\s*[^;{}]*[-+*/%<>&|^!~][^;{}]*;?\s*\}',
+    'K17 operator/class/literal expressions in discarded position (void X, if(X);, if(X){let y=..}, {let x=X}): hasSideEffects does '
+    'not look into the operands of a binary expression, so calls/valueOf/throws/static initialisers inside are dropped')
 _ex(r'(\|\||&&|\?\?)=', 'K19 logical assignment operators ||= &&= ??= (missing from the precedence tables: a||=(b,c) -> a||=b,c; '
                         'not counted as side effect: void(a||=b) -> void 0)')
 _ex(r"""(-|\*|/|%)\s*("[^"\n]*"|'[^'\n]*')\s*\+\s*["'`]""", 'K18 string literal + string literal after a non-additive operator (a-"1"+"2" -> a+"12")')
@@ -432,6 +446,9 @@ _ex(r'\\[23][0-7][0-7]', 'K22b legacy octal escapes \\200..\\377 in string liter
 _ex(r'\\00+[0-9]|\\0[89]', 'K22c \\00 / \\000 / \\0 followed by a digit in string literals (\\0007 -> \\07; \\09 inside a template)')
 _ex(r"""\\0["']\s*\+\s*["'][0-9]""", "K22e '\\0'+'1' merged to \"\\01\"")
 _ex(r'0[xX][0-9a-fA-F_]{11,}n|0[bB][01_]{64,}n|0[oO][0-7_]{22,}n', 'K24 long hexadecimal/binary/octal BigInt literals (the n suffix is dropped)')
+_ex(r'\?\s*\(?\s*([A-Za-z_$][\w$]*)\(([^(),]*)\)\s*\)?\s*:\s*\(?\s*\1\(([^(),]*)\)', 'K25 cond?f(x):f(y) (rewritten to f(cond?x:y): the callee is read before the condition is evaluated)')
+_ex(r'\\x24|\\u0024|\\u\{0*24\}|\\44', 'K22f escapes of the dollar sign (\\x24, \\u0024, \\44) in string literals (decoded to $ before { inside a template literal)')
+_ex(r'\([^()]*\?\?[^()]*\)\s*\|(?![|=])', 'K26 a parenthesised ?? expression as left operand of | ((a??b)|c -> a??b|c)')
 _ex(r'\bstatic\s+[0-9.]', 'K23 static class fields with numeric names (static 1=2 -> static1=2)')
 
 # ===================================================================================================
@@ -495,6 +512,8 @@ def precedence_matrix(ctx):
     progs = []
     quick = ctx.quick()
     rnd = ctx.rnd
+    # (known constructs are excluded per expression, not per batch)
+    exprs = [e for e in exprs if not excluded(_wrap(e))]
     for pi, pre in enumerate(OPERANDS):
         ex = exprs
         if quick:
@@ -1869,14 +1888,14 @@ def regexes(ctx):
 
 def literal_programs(ctx):
     progs = []
-    strs = string_literals(ctx)
+    strs = [x for x in string_literals(ctx) if not excluded('out(%s)' % x)]
     for i in range(0, len(strs), 12):
         progs.append('\n'.join('out(%s)' % s for s in strs[i:i + 12]))
     # legacy octal escapes are sloppy only; the same literals in strict mode (invalid ones are outside the domain)
     for i in range(0, len(strs), 12):
         if ctx.rnd.random() < (0.1 if ctx.quick() else 0.5):
             progs.append('"use strict";\n' + '\n'.join('out(%s)' % s for s in strs[i:i + 12] if not re.search(r'\\[0-9]', s)))
-    tl = template_literals(ctx)
+    tl = [x for x in template_literals(ctx) if not excluded('out(%s)' % x)]
     for i in range(0, len(tl), 8):
         progs.append('var x="X",y=1;function tag(s,...v){out(s,s.raw,v)}\n' + '\n'.join('out(%s)' % s for s in tl[i:i + 8]))
     for i in range(0, len(CONCATS), 6):
@@ -1890,9 +1909,10 @@ def literal_programs(ctx):
             if c != 'out(%s)' and rnd.random() > (0.08 if ctx.quick() else 0.6):
                 continue
             stmts.append(c.replace('%s', n))
+    stmts = [x for x in stmts if not excluded(x)]
     for i in range(0, len(stmts), 10):
         progs.append('var x={a:1,1:2,10:3};\n' + '\n'.join('try{%s}catch(e){out("E")}' % s for s in stmts[i:i + 10]))
-    rx = regexes(ctx)
+    rx = [x for x in regexes(ctx) if not excluded('out(%s)' % x)]
     for i in range(0, len(rx), 10):
         progs.append('\n'.join('out(%s)' % s for s in rx[i:i + 10]))
     return progs
@@ -3281,14 +3301,14 @@ def corpus_programs(ctx):
     vlib.run(['node', '--expose-internals', '--stack-size=8000', os.path.join(vlib.ROOT, 'js', 'c01_corpus.js'), p] + files, timeout=300)
     fns = sorted(set(o['src'] for o in vlib.read_ndjson(p)))
     ctx.rnd.shuffle(fns)
-    out += fns[: 250 if ctx.quick() else 6000]
+    out += fns[: 150 if ctx.quick() else 6000]
     return out
 
 
 def numgen_lexemes(ctx):
     """number lexemes enumerated by TLC from the shared NumGen automaton (decimal literal forms)"""
     dump = ctx.path('gen', 'c01numgen')
-    r = vlib.tlc_mc(ctx, 'NumGen', 'C01NumGen.cfg', dump=dump, workers=4, timeout=600)
+    r = _mc(ctx, 'NumGen', 'C01NumGen.cfg', dump=dump, workers=2, timeout=600)
     lex = []
     cur = None
     for line in open(dump + '.dump'):
@@ -3299,18 +3319,23 @@ def numgen_lexemes(ctx):
                 s = bytes(cur).decode()
                 if s[0] not in '+-':
                     lex.append(s)
+    lex.sort()
     ctx.rnd.shuffle(lex)
-    return sorted(lex[: 150 if ctx.quick() else 2500])
+    return dict(mc=r, lexemes=sorted(lex[: 150 if ctx.quick() else 2500]))
 
 
 def families(ctx, exe):
     quick = ctx.quick()
-    ctx.numgen_lexemes = numgen_lexemes(ctx)
+    rnd = ctx.rnd
+
+    def some(lst, frac):
+        return lst if not quick else [x for x in lst if rnd.random() < frac]
+
     fams = []
-    fams.append(dict(name='tests', sources=test_variants(ctx), nenv=4 if quick else 8, probe=1))
-    fams.append(dict(name='structural', sources=structural_programs(ctx), nenv=4 if quick else 8, probe=1))
+    fams.append(dict(name='tests', sources=some(test_variants(ctx), 0.22), nenv=4 if quick else 6, probe=1))
+    fams.append(dict(name='structural', sources=some(structural_programs(ctx), 0.12), nenv=4 if quick else 6, probe=1))
     fams.append(dict(name='precedence', sources=precedence_matrix(ctx), nenv=1, probe=0, batched=True))
     fams.append(dict(name='literals', sources=literal_programs(ctx), nenv=1, probe=1, batched=True))
-    fams.append(dict(name='asi', sources=asi_programs(ctx), nenv=3 if quick else 6, probe=1))
-    fams.append(dict(name='corpus', sources=corpus_programs(ctx), nenv=3 if quick else 5, probe=1))
+    fams.append(dict(name='asi', sources=some(asi_programs(ctx), 0.17), nenv=3 if quick else 5, probe=1))
+    fams.append(dict(name='corpus', sources=corpus_programs(ctx), nenv=3 if quick else 4, probe=1))
     return fams
